@@ -16,7 +16,10 @@
    - StarCx: counterexamples for what wfs excludes (unlisted sub-variable inside a '*' dict: the write
      is DROPPED; leaf children behind a '*' dict: the write RAISES; a named entry beside '*'; no entry);
    - two variables in one update: rw_symmetry_star_two (different children), rw_symmetry_star_two_top,
-     rw_symmetry_star_two_vars (one child, two variables). *)
+     rw_symmetry_star_two_vars (one child, two variables);
+   - a named port wired into a glob child and the glob port ('*': tuple path) writing one variable:
+     star_path_collision_merges (repaired: multi-update), star_path_collision_refuted_pinned (pinned: the
+     first update is lost), star_path_collision_tuple_port, star_path_collision_view. *)
 From Coq Require Import List NArith ZArith Bool Lia.
 From Viv Require Import Base.Assoc Base.Tree Model.Paths Model.Wire Proofs.Paths_proofs Proofs.Wire_proofs.
 Import ListNotations.
@@ -288,13 +291,17 @@ Lemma inv_topo_skip fixed outer cu q c inv :
   inv_topo fixed true outer (UD cu) (TDict q c) inv = inv_topo fixed false outer (UD cu) (TDict None c) inv.
 Proof. reflexivity. Qed.
 
+(* the mode of the '*' tuple-path case: the repaired code merges like every other port (mode 1), the pinned
+   code deep_merges dicts and overwrites scalars (mode 2) *)
+Definition star_mode (fixed : bool) : nat := if fixed then 1%nat else 2%nat.
+
 Lemma lgo_star_path1 fixed inner ch val p inv :
   lgo fixed inner [(ch, val)] [(PStar, TPath p)] inv =
-  rbind (abs_keys (normalize (inner ++ p ++ [Dn ch]))) (fun tgt => place_mode 2 inv tgt val).
+  rbind (abs_keys (normalize (inner ++ p ++ [Dn ch]))) (fun tgt => place_mode (star_mode fixed) inv tgt val).
 Proof.
-  unfold lgo. cbn [fold_left fst snd rbind].
+  unfold lgo, star_mode. cbn [fold_left fst snd rbind].
   destruct (abs_keys (normalize (inner ++ p ++ [Dn ch]))) as [tgt|e]; cbn [rbind]; [|reflexivity].
-  destruct (place_mode 2 inv tgt val); reflexivity.
+  destruct (place_mode (if fixed then 1%nat else 2%nat) inv tgt val); reflexivity.
 Qed.
 
 Lemma lgo_star_dict1 fixed inner ch val q c'' inv :
@@ -377,11 +384,11 @@ Proof.
     + destruct X as [p|q'' c''].
       * (* '*': a tuple path *)
         unfold star_path, star_sub in Hw2, Hx. cbn [plook pkey_eqb] in Hw2, Hx.
-        exists 2%nat, (b2 ++ [k]), rest. split.
+        exists (star_mode fixed), (b2 ++ [k]), rest. split.
         { now rewrite (view_pstar_var _ _ _ _ _ _ Hwf Hx Hgx Hvp). }
         intros inv. rewrite inv_topo_dict. cbv zeta. rewrite Hinner.
         assert (Hlisted : lgo fixed (dn b) [(k, usingle rest (UV z))] [(PStar, TPath p)] inv
-                          = place_mode 2 inv (b2 ++ [k]) (usingle rest (UV z))).
+                          = place_mode (star_mode fixed) inv (b2 ++ [k]) (usingle rest (UV z))).
         { rewrite lgo_star_path1. rewrite app_assoc, normalize_snoc_Dn.
           rewrite (walk_is_lexical _ _ _ _ Hw2), dn_snoc, abs_keys_dn. reflexivity. }
         rewrite Hlisted. destruct p'; reflexivity.
@@ -1527,6 +1534,187 @@ Qed.
 
 End StarTwoEx.
 
+(* ================= a named port and a glob port write the same variable of one child ================= *)
+(* The '*' tuple-path case of inverse_topology: the pinned code deep_merges / assoc_paths the child's update
+   into what an earlier port of the same process has already routed to the child's node (place_mode 2), so
+   the earlier value is overwritten; the repaired code merges them as a multi-update like every other port
+   (place_mode 1).  k1 is a named port wired INTO the child ch of the glob node, listed before the glob
+   port k2. *)
+
+Lemma abs_keys_snoc l : forall i k, abs_keys l = Ok i -> abs_keys (l ++ [Dn k]) = Ok (i ++ [k]).
+Proof.
+  induction l as [|[|k0] l IH]; intros i k H.
+  - injection H as <-. reflexivity.
+  - discriminate.
+  - cbn in H. destruct (abs_keys l) as [i0|e] eqn:E; [|discriminate]. injection H as <-.
+    cbn. now rewrite (IH i0 k eq_refl).
+Qed.
+
+Lemma abs_keys_child a p ch inner : abs_keys (normalize (dn a ++ p)) = Ok inner ->
+  abs_keys (normalize (dn a ++ p ++ [Dn ch])) = Ok (inner ++ [ch]).
+Proof. intros H. rewrite app_assoc, normalize_snoc_Dn. now apply abs_keys_snoc. Qed.
+
+(* the common part: after the named port, the '*' tuple-path entry places the child's update in star_mode *)
+Lemma star_path_collision_gen fixed a p k1 k2 ch x z1 z2 inner : k1 <> k2 ->
+  abs_keys (normalize (dn a ++ p)) = Ok inner ->
+  invert fixed a [(k1, UD [(x, UV z1)]); (k2, UD [(ch, UD [(x, UV z2)])])]
+         [(PK k1, TPath (p ++ [Dn ch])); (PK k2, TDict None [(PStar, TPath p)])]
+  = place_mode (star_mode fixed) (usingle_top (inner ++ [ch]) (UD [(x, UV z1)])) (inner ++ [ch]) (UD [(x, UV z2)]).
+Proof.
+  intros Hne Habs. pose proof (abs_keys_child a p ch inner Habs) as Hc.
+  unfold invert. rewrite inv_topo_dict. cbv zeta. cbv iota.
+  rewrite lgo_PK. cbn [alookup]. rewrite N.eqb_refl.
+  rewrite inv_topo_path, Hc. cbn [rbind].
+  change (UD [(x, UV z1)]) with (usingle [x] (UV z1)) at 1. rewrite place_single.
+  rewrite lgo_PK. cbn [alookup]. apply N.eqb_neq in Hne. rewrite Hne, N.eqb_refl.
+  rewrite lgo_nil_match.
+  rewrite inv_topo_dict. cbv zeta. change (has_star [(PStar, TPath p)]) with true. cbv iota.
+  rewrite lgo_star_path1, Hc. cbn [rbind].
+  rewrite usingle_top_app. reflexivity.
+Qed.
+
+(* ---- the repaired code: both values arrive, as a multi-update of the child's variable ---- *)
+Theorem star_path_collision_merges a p k1 k2 ch x z1 z2 inner : k1 <> k2 ->
+  abs_keys (normalize (dn a ++ p)) = Ok inner ->
+  invert true a [(k1, UD [(x, UV z1)]); (k2, UD [(ch, UD [(x, UV z2)])])]
+         [(PK k1, TPath (p ++ [Dn ch])); (PK k2, TDict None [(PStar, TPath p)])]
+  = Ok (usingle_top (inner ++ [ch; x]) (UM [UV z1; UV z2])).
+Proof.
+  intros Hne Habs. rewrite (star_path_collision_gen true _ _ _ _ _ _ _ _ _ Hne Habs).
+  unfold star_mode, place_mode.
+  rewrite (uupdate_in_spine (inner ++ [ch]) _ [(x, UV z1)] [(x, UM [UV z1; UV z2])]).
+  - change [ch; x] with ([ch] ++ [x]). rewrite app_assoc, (usingle_top_app (inner ++ [ch]) [x]). reflexivity.
+  - cbn. rewrite N.eqb_refl. cbn. rewrite ?N.eqb_refl. reflexivity.
+Qed.
+
+(* ---- the pinned code: only the glob port's value is left, the named port's update is lost ---- *)
+Theorem star_path_collision_refuted_pinned a p k1 k2 ch x z1 z2 inner : k1 <> k2 ->
+  abs_keys (normalize (dn a ++ p)) = Ok inner ->
+  invert false a [(k1, UD [(x, UV z1)]); (k2, UD [(ch, UD [(x, UV z2)])])]
+         [(PK k1, TPath (p ++ [Dn ch])); (PK k2, TDict None [(PStar, TPath p)])]
+  = Ok (usingle_top (inner ++ [ch; x]) (UV z2)).
+Proof.
+  intros Hne Habs. rewrite (star_path_collision_gen false _ _ _ _ _ _ _ _ _ Hne Habs).
+  unfold star_mode, place_mode.
+  rewrite (uupdate_in_spine (inner ++ [ch]) _ [(x, UV z1)] [(x, UV z2)]).
+  - change [ch; x] with ([ch] ++ [x]). rewrite app_assoc, (usingle_top_app (inner ++ [ch]) [x]). reflexivity.
+  - cbn. rewrite N.eqb_refl. cbn. rewrite ?N.eqb_refl. reflexivity.
+Qed.
+
+(* so the merged statement is false for the pinned code whenever z1 is to be seen *)
+Corollary star_path_collision_merges_false_pinned a p k1 k2 ch x z1 z2 inner : k1 <> k2 ->
+  abs_keys (normalize (dn a ++ p)) = Ok inner ->
+  invert false a [(k1, UD [(x, UV z1)]); (k2, UD [(ch, UD [(x, UV z2)])])]
+         [(PK k1, TPath (p ++ [Dn ch])); (PK k2, TDict None [(PStar, TPath p)])]
+  <> Ok (usingle_top (inner ++ [ch; x]) (UM [UV z1; UV z2])).
+Proof.
+  intros Hne Habs. rewrite (star_path_collision_refuted_pinned _ _ _ _ _ _ _ _ _ Hne Habs).
+  intros H. injection H as H. apply usingle_top_inj in H; [discriminate|]. destruct inner; discriminate.
+Qed.
+
+(* the glob port wired by a plain tuple path (glob in the schema only): the port's whole dict goes through
+   deep_merge_multi_update, so BOTH the pinned and the repaired code keep the two values *)
+Theorem star_path_collision_tuple_port fixed a p k1 k2 ch x z1 z2 inner : k1 <> k2 ->
+  abs_keys (normalize (dn a ++ p)) = Ok inner ->
+  invert fixed a [(k1, UD [(x, UV z1)]); (k2, UD [(ch, UD [(x, UV z2)])])]
+         [(PK k1, TPath (p ++ [Dn ch])); (PK k2, TPath p)]
+  = Ok (usingle_top (inner ++ [ch; x]) (UM [UV z1; UV z2])).
+Proof.
+  intros Hne Habs. pose proof (abs_keys_child a p ch inner Habs) as Hc.
+  unfold invert. rewrite inv_topo_dict. cbv zeta. cbv iota.
+  rewrite lgo_PK. cbn [alookup]. rewrite N.eqb_refl.
+  rewrite inv_topo_path, Hc. cbn [rbind].
+  change (UD [(x, UV z1)]) with (usingle [x] (UV z1)) at 1. rewrite place_single.
+  rewrite lgo_PK. cbn [alookup]. apply N.eqb_neq in Hne. rewrite Hne, N.eqb_refl.
+  rewrite lgo_nil_match, inv_topo_path, Habs. cbn [rbind].
+  rewrite <- app_assoc. cbn [app]. change [ch; x] with ([ch] ++ [x]).
+  rewrite !usingle_top_app. cbn [usingle].
+  unfold place, place_mode.
+  rewrite (uupdate_in_spine inner _ [(ch, UD [(x, UV z1)])] [(ch, UD [(x, UM [UV z1; UV z2])])]); [reflexivity|].
+  destruct fixed; cbn; rewrite !N.eqb_refl; cbn; rewrite ?N.eqb_refl; reflexivity.
+Qed.
+
+(* ---- tied to the read view: the two ports READ the same store node r, and the repaired write path delivers
+   both values to r ---- *)
+Lemma dn_inj (l1 : list key) : forall l2, dn l1 = dn l2 -> l1 = l2.
+Proof.
+  induction l1 as [|x l1 IH]; intros [|y l2] H; try discriminate; auto.
+  cbn in H. injection H as -> H. f_equal. auto.
+Qed.
+
+Theorem star_path_collision_view t a c p k1 k2 ch x S1 sub v r1 r2 z1 z2 :
+  let tp := [(PK k1, TPath (p ++ [Dn ch])); (PK k2, TDict None [(PStar, TPath p)])] in
+  keys_ok c = true -> k1 <> k2 ->
+  plook (PK k1) c = Some S1 -> pstar_schema S1 = true -> svar_path S1 [x] = true ->
+  plook (PK k2) c = Some (SNode false [(PStar, sub)]) -> pstar_schema sub = true -> svar_path sub [x] = true ->
+  view t a (SNode false c) tp = Ok v ->
+  vget v [k1; x] = Some (VRef r1) -> vget v [k2; ch; x] = Some (VRef r2) ->
+  r1 = r2 /\
+  invert true a [(k1, UD [(x, UV z1)]); (k2, UD [(ch, UD [(x, UV z2)])])] tp
+  = Ok (usingle_top r2 (UM [UV z1; UV z2])) /\
+  invert false a [(k1, UD [(x, UV z1)]); (k2, UD [(ch, UD [(x, UV z2)])])] tp
+  = Ok (usingle_top r2 (UV z2)).
+Proof.
+  intros tp Hk Hne Hp1 Hs1 Hv1 Hp2 Hs2 Hv2 Hv Hg1 Hg2.
+  assert (Hne' : N.eqb k1 k2 = false) by now apply N.eqb_neq.
+  destruct (view_node_get _ _ _ _ _ _ _ _ _ Hk Hv Hg1) as [_ [_ [s1 [b1 [y1 [Hq1 [Hw1 [Hy1 Hgy1]]]]]]]].
+  destruct (view_node_get _ _ _ _ _ _ _ _ _ Hk Hv Hg2) as [_ [_ [s2 [b2 [y2 [Hq2 [Hw2 [Hy2 Hgy2]]]]]]]].
+  rewrite Hp1 in Hq1. injection Hq1 as <-. rewrite Hp2 in Hq2. injection Hq2 as <-.
+  unfold entry_path, entry_sub, tp in Hw1, Hy1, Hw2, Hy2. cbn [plook pkey_eqb] in Hw1, Hy1, Hw2, Hy2.
+  rewrite N.eqb_refl in Hw1, Hy1. rewrite Hne', N.eqb_refl in Hw2, Hy2.
+  cbn in Hw2. injection Hw2 as <-.
+  destruct (view_glob_get _ _ _ _ _ _ _ _ _ Hy2 Hgy2) as [_ [_ [b3 [y3 [Hw3 [_ [Hy3 Hgy3]]]]]]].
+  unfold star_path, star_sub in Hw3, Hy3. cbn [plook pkey_eqb] in Hw3, Hy3.
+  pose proof (view_pstar_var _ _ _ _ _ _ Hs1 Hy1 Hgy1 Hv1) as E1.
+  pose proof (view_pstar_var _ _ _ _ _ _ Hs2 Hy3 Hgy3 Hv2) as E2.
+  pose proof (walk_is_lexical _ _ _ _ Hw3) as L3.
+  pose proof (walk_is_lexical _ _ _ _ Hw1) as L1.
+  rewrite app_assoc, normalize_snoc_Dn, L3, dn_snoc in L1. apply dn_inj in L1. subst b1.
+  assert (Habs : abs_keys (normalize (dn a ++ p)) = Ok b3) by (rewrite L3; apply abs_keys_dn).
+  rewrite <- app_assoc in E1, E2. cbn [app] in E1, E2.
+  split; [congruence|]. subst r2. split.
+  - apply star_path_collision_merges; auto.
+  - apply star_path_collision_refuted_pinned; auto.
+Qed.
+
+Module StarCollisionEx.
+Import StarEx.
+Open Scope N_scope.
+
+(* port 8 is wired into child 2 of node 10, port 7 is the glob over the children of node 10 *)
+Definition sch2 : list (pkey * schema) :=
+  [(PK 8, SNode false [(PK 6, SVar d0)]); (PK 7, SNode false [(PStar, SNode false subc)])].
+Definition tp2 : list (pkey * topo) :=
+  [(PK 8, TPath ([Up; Dn 10] ++ [Dn 2])); (PK 7, TDict None [(PStar, TPath [Up; Dn 10])])].
+
+Example star_path_collision_sat :
+  let t := gen_store sch2 tp2 in
+  t = Nd [(10, Nd [(1, Nd [(5, Lf leaf0); (6, Lf leaf0)]); (2, Nd [(6, Lf leaf0); (5, Lf leaf0)])]); (30, Nd [])] /\
+  view t [30] (SNode false sch2) tp2
+  = Ok (VNode [(8, VNode [(6, VRef [10; 2; 6])]);
+               (7, VNode [(1, VNode [(5, VRef [10; 1; 5]); (6, VRef [10; 1; 6])]);
+                          (2, VNode [(5, VRef [10; 2; 5]); (6, VRef [10; 2; 6])])])]) /\
+  invert true [30] [(8, UD [(6, UV 8%Z)]); (7, UD [(2, UD [(6, UV 9%Z)])])] tp2
+  = Ok [(10, UD [(2, UD [(6, UM [UV 8%Z; UV 9%Z])])])] /\
+  invert false [30] [(8, UD [(6, UV 8%Z)]); (7, UD [(2, UD [(6, UV 9%Z)])])] tp2
+  = Ok [(10, UD [(2, UD [(6, UV 9%Z)])])].
+Proof.
+  cbv zeta. split; [vm_compute; reflexivity|]. split; [vm_compute; reflexivity|].
+  pose proof (star_path_collision_view (gen_store sch2 tp2) [30] sch2 [Up; Dn 10] 8 7 2 6
+                (SNode false [(PK 6, SVar d0)]) (SNode false subc)
+                (VNode [(8, VNode [(6, VRef [10; 2; 6])]);
+                        (7, VNode [(1, VNode [(5, VRef [10; 1; 5]); (6, VRef [10; 1; 6])]);
+                                   (2, VNode [(5, VRef [10; 2; 5]); (6, VRef [10; 2; 6])])])])
+                [10; 2; 6] [10; 2; 6] 8%Z 9%Z) as T.
+  cbv zeta in T.
+  assert (T' := T ltac:(reflexivity) ltac:(discriminate) ltac:(reflexivity) ltac:(reflexivity) ltac:(reflexivity)
+                  ltac:(reflexivity) ltac:(reflexivity) ltac:(reflexivity)
+                  ltac:(vm_compute; reflexivity) ltac:(reflexivity) ltac:(reflexivity)).
+  destruct T' as [_ [H1 H2]]. split; [exact H1|exact H2].
+Qed.
+
+End StarCollisionEx.
+
 Print Assumptions rw_dict_star_inv.
 Print Assumptions rw_symmetry_star_gen.
 Print Assumptions rw_symmetry_star.
@@ -1556,3 +1744,9 @@ Print Assumptions StarCx.star_named_sibling_counterexample.
 Print Assumptions StarCx.star_missing_entry_counterexample.
 Print Assumptions StarTwoEx.rw_symmetry_star_two_sat.
 Print Assumptions StarTwoEx.star_two_children_shared_variable.
+Print Assumptions star_path_collision_merges.
+Print Assumptions star_path_collision_refuted_pinned.
+Print Assumptions star_path_collision_merges_false_pinned.
+Print Assumptions star_path_collision_tuple_port.
+Print Assumptions star_path_collision_view.
+Print Assumptions StarCollisionEx.star_path_collision_sat.
